@@ -132,6 +132,13 @@ def seeds_and_kwargs(rep, a):
                    ("ComplexEOF/randomized", lambda sd=sd: xe.single.ComplexEOF(n_modes=3, solver="randomized", random_state=sd).fit(Xc, "time")),
                    ("EOF/dask", lambda sd=sd: xe.single.EOF(n_modes=3, random_state=sd).fit(Xd, "time")),
                    ("POP/pca", lambda sd=sd: xe.single.POP(n_modes=3, n_pca_modes=3, random_state=sd).fit(Xr, "time")),
+                   ("HilbertEOF/randomized", lambda sd=sd: xe.single.HilbertEOF(n_modes=3, solver="randomized", random_state=sd).fit(Xr, "time")),
+                   ("ExtendedEOF/randomized", lambda sd=sd: xe.single.ExtendedEOF(n_modes=3, tau=1, embedding=2, solver="randomized", random_state=sd).fit(Xr, "time")),
+                   ("ExtendedEOF/pca", lambda sd=sd: xe.single.ExtendedEOF(n_modes=2, tau=1, embedding=2, n_pca_modes=3, random_state=sd).fit(Xr, "time")),
+                   ("OPA/pca", lambda sd=sd: xe.single.OPA(n_modes=2, tau_max=2, n_pca_modes=3, random_state=sd).fit(Xr, "time")),
+                   ("SparsePCA", lambda sd=sd: xe.single.SparsePCA(n_modes=3, alpha=1e-3, random_state=sd).fit(Xr, "time")),
+                   ("MCA/randomized", lambda sd=sd: xe.cross.MCA(n_modes=3, solver="randomized", random_state=sd).fit(Xr, Xr * 2 + 1, "time")),
+                   ("CPCCA/randomized", lambda sd=sd: xe.cross.CPCCA(n_modes=2, alpha=0.5, n_pca_modes=4, solver="randomized", random_state=sd).fit(Xr, Xr.isel(x=slice(0, 8)) * 3 - 1, "time")),
                    ("SVD wrapper", lambda sd=sd: SVD(n_modes=3, solver="randomized", random_state=sd).fit_transform(
                        Xr.rename(time="sample", x="feature") - Xr.rename(time="sample", x="feature").mean("sample")))]
     for name, f in routes:
@@ -139,7 +146,7 @@ def seeds_and_kwargs(rep, a):
         def payload(o):
             if isinstance(o, tuple):
                 return b"".join(np.ascontiguousarray(x.values).tobytes() for x in o)
-            return np.ascontiguousarray(o.data["components"].values).tobytes() + np.ascontiguousarray(o.data["scores"].values).tobytes()
+            return b"".join(np.ascontiguousarray(np.asarray(o.data[k].values)).tobytes() for k in sorted(o.data.keys()) if k != "input_data")
         nfacts += 1
         if payload(a1) != payload(a2):
             found.append(("C15", "C15_SeedDeterminism", f"{name}: two fits with equal input and equal random_state are not bit-identical",
